@@ -250,7 +250,7 @@ MattermostG ==
     END  |-> {} ]
 
 ComposerG ==
-  [ S    |-> T({"", "v"}, "NUMP") \cup T({"", "v"}, "NUM") \cup T({"dev-master", "dev-main", "dev-feature/x", "dev-fix-x", "dev-1.0"}, "END"),
+  [ S    |-> T({"", "v"}, "NUMP") \cup T({"", "v"}, "NUM") \cup T({"dev-master", "dev-main", "dev-feature/x", "dev-fix-x", "dev-1.0", "main", "master", "develop", "trunk", "feature/login", "release-1.0", "hotfix/1.2", "bugfix-x", "stable"}, "END"),
     NUMP |-> T({"0", "1", "1.0", "1.0.0", "1.1", "2.0.0", "1.0.1", "1.10", "1.2.3.4", "0.1", "1.01", "1.0.0.0",
                 "2", "1.9", "1.0.0.0.0", "1.0.0.1"}, "QP"),
     QP   |-> T({"", "-beta1", "-RC1", "b1", "-patch1", "-dev", "+build"}, "END"),
